@@ -128,6 +128,24 @@ def operators_case(ctx, n_orbs, utd, rng):
                 if not fock.spectra_equal(np.linalg.eigvalsh(fock.qubit_matrix(q, n)), np.linalg.eigvalsh(ref)):
                     ctx.violation(f"{mapping}-encoded {nm} (up_then_down={utd}) does not have the spectrum of {nm}", {**case, "mapping": mapping})
                     return False
+        # symmetry-conserving Bravyi-Kitaev: in every (n_electrons, spin) sector - negative spin projections and odd
+        # electron numbers included - the encoded N and Sz are the operators restricted to the (N parity, N_alpha parity)
+        # space of that sector (N and Sz are diagonal in the determinants: the values must match as multisets)
+        if n >= 4:
+            Nd, Szd = np.real(np.diag(indep_ops(n_orbs, False)[0])), np.real(np.diag(indep_ops(n_orbs, False)[1]))
+            for n_e in range(0, n + 1):
+                for spin in range(-n_e, n_e + 1):
+                    n_alpha, n_beta = (n_e + spin) // 2, (n_e - spin) // 2
+                    if (n_e + spin) % 2 or not (0 <= n_alpha <= n_orbs and 0 <= n_beta <= n_orbs):
+                        continue
+                    idx = fock.sector_indices(n, lambda x: fock.popcount(x) % 2 == n_e % 2 and fock.popcount(x & 0x55555555) % 2 == n_alpha % 2)
+                    for op, dg, nm in ((number_operator(n_orbs, False), Nd, "N"), (spinz_operator(n_orbs, False), Szd, "Sz")):
+                        q = fermion_to_qubit_mapping(op, "scBK", n_spinorbitals=n, n_electrons=n_e, up_then_down=utd, spin=spin)
+                        ctx.count("encoded:scBK")
+                        if not fock.spectra_equal(np.linalg.eigvalsh(fock.qubit_matrix(q, n - 2)), np.sort(dg[idx])):
+                            ctx.violation(f"scBK-encoded {nm} for {n_e} electrons, spin {spin} (up_then_down={utd}) is not {nm} on the (N parity, N_alpha parity) "
+                                          f"space of that sector", {**case, "mapping": "scBK", "n_electrons": n_e, "spin": spin})
+                            return False
     return True
 
 
